@@ -251,7 +251,8 @@ def generate(rng):
         a = rng.choice(lv)
         m = ms[a]
         if r < 0.30:
-            op = {"op": "add_bond", "r": a, "i": idx_in(m), "j": idx_in(m), "t": rng.randrange(NTYPES)}
+            # t None: the documented default (BondType.ANY) is left to the library
+            op = {"op": "add_bond", "r": a, "i": idx_in(m), "j": idx_in(m), "t": rng.randrange(NTYPES) if rng.random() < 0.8 else None}
             if m.b and rng.random() < 0.3 and not faulty:
                 (i, j) = rng.choice(sorted(m.b))
                 op["i"], op["j"] = (j, i) if rng.random() < 0.5 else (i, j)
@@ -350,7 +351,7 @@ def apply_model(ms, op):
         if a == b:
             return ("skip",)
         m2 = m.copy()
-        m2.b[key(a, b)] = op["t"]
+        m2.b[key(a, b)] = op["t"] if op["t"] is not None else 0
         return ("ok", m2, None)
     if name == "remove_bond":
         a, b = norm(op["i"], n), norm(op["j"], n)
@@ -555,6 +556,8 @@ class Sim:
             return getattr(np, t)(v) if info.min <= v <= info.max else v
 
         if name == "add_bond":
+            if op["t"] is None:
+                return lambda: (None, R[op["r"]].add_bond(sc(op["i"]), sc(op["j"])))
             return lambda: (None, R[op["r"]].add_bond(sc(op["i"]), sc(op["j"]), op["t"]))
         if name == "remove_bond":
             return lambda: (None, R[op["r"]].remove_bond(sc(op["i"]), sc(op["j"])))
@@ -747,6 +750,17 @@ class Sim:
                 ok = st == "exc" and isinstance(v, NotImplementedError)
             else:
                 ok = st == "exc" and isinstance(v, ValueError)
+            if not ok and st == "exc" and name == "index":
+                # the refusal came from a recorded defect before the documented one could (e.g. the small-dtype
+                # overflow on a duplicate index array): still a refusal, counted under the known finding
+                detail = {"op": name, "got": exc_name(v), "msg": str(v)[:200], "index_type": op["idx"]["t"]}
+                if op["idx"].get("ro"):
+                    detail["readonly"] = True
+                k = match_known(PROP, "op:raised", detail)
+                if k is not None:
+                    self.res.known.append((k["id"], k["text"]))
+                    self.res.stats["known:" + k["id"]] += 1
+                    return "known-finding:op:raised"
             if not ok:
                 self.fail("rejection:wrong-outcome", op=name, kind=kind, got="accepted" if st == "ok" else exc_name(v),
                           idx=op.get("idx"), bonds=op.get("bonds"))
